@@ -572,7 +572,7 @@ def run(run, tier, seed, replay_case=None):
             D = Diff(run, PROP, [impl], model, C.lib_env("asan"), signatures=SIGNATURES, keep_first=0,
                      model_desc="coq/C29/Model.v vs src/occa/internal/c/types.cpp + src/c/json.cpp")
             I, R, S = D.eval(cases)
-            pf, cb = D.judge(cases, I, R, S, proof_failures=pr["failures"])
+            pf, cb = D.judge(cases, I, R, S, proof_failures=pr["failures"], max_report=4)
             prop_fails, corr = len(pf), len(cb)
         Ik = Rk = Sk = []
         if kr:
@@ -585,7 +585,7 @@ def run(run, tier, seed, replay_case=None):
                 Dk = Diff(run, PROP, [implp], model, envp, signatures=SIGNATURES, keep_first=0, jobs=1,
                           model_desc="coq/C29/Model.v kernel_run vs occaKernelPushArg/RunN/RunWithArgs + Serial kernel")
                 Ik, Rk, Sk = Dk.eval(kr, parallel=False)
-                pf, cb = Dk.judge(kr, Ik, Rk, Sk, proof_failures=pr["failures"])
+                pf, cb = Dk.judge(kr, Ik, Rk, Sk, proof_failures=pr["failures"], max_report=4)
                 prop_fails += len(pf)
                 corr += len(cb)
             finally:
